@@ -521,6 +521,11 @@ func TestVerif_C07(t *testing.T) {
 		// subscriber never has more than nPub deliveries pending: with buffer >= nPub it
 		// may not lose anything, while the stalled ones overflow
 		buf := nPub + vk.Pick(r, []int{0, 1, 3, 7})
+		if i%3 == 0 {
+			// only stalled subscribers: many unpaced publishers race for the last free
+			// slots of a tiny buffer; every one of them must still get its OK
+			nDrain, nPub, buf = 0, 4+r.IntN(5), 1+r.IntN(2)
+		}
 		router := mocrelay.NewRouterHandler(buf)
 		w := &rWorld{}
 		var conns []*rConn
